@@ -1,9 +1,9 @@
 #!/bin/bash
-# usage: tools/validate_seed.sh <ID> <X>   (inputs in /tmp/seed/out/<ID>/<X>; scratch worktree /tmp/seed/wt_<ID>)
+# usage: tools/validate_seed.sh <ID> <X>   (inputs in ${SEED_SRC:-/tmp/seed/out}/<ID>/<X>; scratch worktree ${SEED_WT:-/tmp/seed/wt_}<ID>)
 # Confirms independently: suite passes with the change; demo passes without it; demo fails with it.
 id=$1; x=$2
-src=/tmp/seed/out/$id/$x; wt=/tmp/seed/wt_$id
-log=/tmp/seed/out/$id/$x/validate.log
+src=${SEED_SRC:-/tmp/seed/out}/$id/$x; wt=${SEED_WT:-/tmp/seed/wt_}$id
+log=$src/validate.log
 cd $wt || exit 2
 git checkout -q -- . ; rm -rf tests/demo.rs
 mkdir -p tests
